@@ -58,7 +58,9 @@ fn nth(alpha: &[&str], mut idx: usize) -> String {
     digits.iter().map(|&d| alpha[d]).collect()
 }
 
-const LADDERS: [(&str, &str, &str, &str); 16] = [
+const LADDERS: [(&str, &str, &str, &str); 18] = [
+    ("chain_call_nest", "#", "a.b.c(", ")"),
+    ("table_nest", "#", "table(columns: 2, ", ", ..d)"),
     ("paren", "#(", "1", ")"),
     ("call", "#f(", "1", ")"),
     ("array", "#(1, ", "2", ")"),
@@ -101,6 +103,7 @@ fn ladder(i: usize, depth: usize) -> String {
             let inner = if name == "content_block" { "[a]" } else { atom };
             format!("{head}{}{inner}{}{tail}", unit_open.repeat(depth), unit_close.repeat(depth))
         }
+        "chain_call_nest" | "table_nest" => format!("{pre}{}1{}", atom.repeat(depth), post.repeat(depth)),
         "closure" => format!("#let v = {}1", "x => ".repeat(depth)),
         "binary_right" => format!("#({}1{})", "1 + (".repeat(depth), ")".repeat(depth)),
         "strong_emph" => format!("{}a{}", "*_".repeat(depth), "_*".repeat(depth)),
@@ -135,7 +138,7 @@ fn families(thorough: bool) -> Vec<Family> {
     ];
     // single-character damages of the canonical skeleton instances
     let m = Model::new();
-    let ctxs = ["doc", "hash", "let", "codeblock", "arg", "math_i", "math_b", "mixed", "item", "content_ml", "nested_code", "math_hash", "heading", "strong", "pattern", "param"];
+    let ctxs = ["doc", "hash", "let", "codeblock", "arg", "math_i", "math_b", "mixed", "item", "content_ml", "nested_code", "nested_code3", "math_hash", "heading", "strong", "pattern", "param"];
     let ks: &[usize] = if thorough { &[0, 1, 2] } else { &[0, 1] };
     let mut bases: Vec<String> = sweep::skeletons(&m, &ctxs, ks, &[Size::Short]).iter().map(|sk| m.instantiate(sk)).collect();
     bases.sort();
@@ -168,7 +171,7 @@ fn families(thorough: bool) -> Vec<Family> {
     v.push(Family { name: "single-character damages of canonical skeleton instances".into(), size: nd, gen: Box::new(move |i| damaged[i].clone()) });
     // unicode whitespace / newline characters in every small structural context
     let ws = ['\u{b}', '\u{c}', '\u{85}', '\u{a0}', '\u{1680}', '\u{2000}', '\u{2028}', '\u{2029}', '\u{202f}', '\u{205f}', '\u{3000}', '\u{feff}', '\u{200b}', '\r', '\t', '\0'];
-    let ctx = ["#f(a,§b)", "#{a§b}", "$a§b$", "a§b", "- a§b", "= a§b", "#let a§= 1", "//c§x", "/*c§*/x", "#[a§]", "\"a§b\"", "`a§b`", "§", "a§", "§a", "#a.§b", "$f(a§,b)$", "#(a:§1)", "*a§*", "a§§b"];
+    let ctx = ["#f(a,§b)", "#{a§b}", "$a§b$", "a§b", "- a§b", "= a§b", "#let a§= 1", "//c§x", "/*c§*/x", "#[a§]", "\"a§b\"", "`a§b`", "§", "a§", "§a", "#a.§b", "$f(a§,b)$", "#(a:§1)", "*a§*", "a§§b", "/* a\n§b */", "/*a\n §b\n§ c*/", "#f(/* a\n§§b */ x)", "\"a\n§b\"", "```\n§x\n```", "- a\n§b", "- a\n §- b"];
     let mut uni = vec![];
     for c in ctx {
         for w in ws {
@@ -582,7 +585,8 @@ pub fn run(tier: &str, seed: u64) -> i32 {
     };
     report::finish(out, &|kf| {
         // known ladder findings: re-run the recorded ladder step
-        let (Some(l), Some(d)) = (kf.example.get("ladder").and_then(|v| v.as_u64()), kf.example.get("depth").and_then(|v| v.as_u64())) else { return false };
+        let name = kf.example.get("ladder").and_then(|v| v.as_str()).unwrap_or("");
+        let (Some(l), Some(d)) = (LADDERS.iter().position(|x| x.0 == name).map(|i| i as u64), kf.example.get("depth").and_then(|v| v.as_u64())) else { return false };
         let p = run_step(l as usize, d as usize, "parse");
         if !matches!(&p, Ok(v) if v["erroneous"] == json!(false)) {
             return false;
